@@ -97,7 +97,8 @@ def count_class(o, vals):
     if CT.kind_of(o["type"]) == "commalist":
         if not vals or vals[-1] == "":
             return "empty"
-        return "multi-item" if "," in vals[-1] else "single-item"
+        inner = any(len(x.split()) > 1 for x in vals[-1].split(","))
+        return ("multi-item" if "," in vals[-1] else "single-item") + ("+entry-with-inner-blank" if inner else "")
     return "reset" if not vals else ("single" if len(vals) == 1 else "multi")
 
 
